@@ -1,6 +1,7 @@
 package props
 
 import (
+	"reflect"
 	"encoding/json"
 	"errors"
 	"fmt"
@@ -36,6 +37,7 @@ type c08Case struct {
 	// values: the catalogue of value kinds (C16's) answered as declared result / declared data output and read
 	// back from the variables and from the next task's data inputs
 	Route    string `json:"route,omitempty"`
+	Loop     bool   `json:"loop,omitempty"` // object-input: A and B are passed three times, A storing another value each time
 	From, To int    `json:",omitempty"`
 }
 
@@ -79,7 +81,7 @@ func c08Inputs(c *c08Case, env *fw.Env, v *fw.V) {
 	t.Writes = []string{"hv", "again"}
 	n := g.Add(gen.Task, "N", "")
 	n.Headers = []gen.PropItem{{Name: "h1", Ref: "$hv.u", Value: "lit"}, {Name: "h2", Value: "const"}, {Name: "h3", Ref: "$hv.u"}}
-	n.Props = []gen.PropItem{{Name: "p1", Ref: "$hv.u"}}
+	n.Props = []gen.PropItem{{Name: "p1", Ref: "$hv.u"}, {Name: "pf", Ref: "$hv.u", Type: "float"}, {Name: "pi", Ref: "$hv.u", Type: "integer"}, {Name: "pb", Ref: "$hv.u", Type: "boolean"}}
 	xs := g.Add(gen.Xor, "xs", "")
 	e := g.Add(gen.End, "end", "")
 	g.Connect(s, xm, nil)
@@ -96,7 +98,7 @@ func c08Inputs(c *c08Case, env *fw.Env, v *fw.V) {
 	}
 	perturb.Off()
 	// the values T stores, round by round (c.Seq indexes this catalogue): texts, and things that are no text
-	cat := []any{"text-a", 42, "text-b", true, "", 2.5, "text-c"}
+	cat := []any{"text-a", 42, "text-b", true, "", 2.5, "text-c", 2.0, -3.0, 7, 1e6, false, 0.125}
 	runInst := func(label string, seq []int) bool {
 		in, err := drive.New(env.Label, defs, drive.Opts{Vars: map[string]any{"again": 0}})
 		if err != nil {
@@ -152,6 +154,29 @@ func c08Inputs(c *c08Case, env *fw.Env, v *fw.V) {
 				}
 			}
 			v.Add("header-reads", 3)
+			// a property bound by reference to the stored member shows the value whenever the value is of the kind
+			// the property declares (text, float, integer, boolean); other pairings are not demanded
+			props := p[0].Trace.GetProperties()
+			pname, pwant := "", any(nil)
+			switch x := val.(type) {
+			case string:
+				pname, pwant = "p1", x
+			case float64:
+				pname, pwant = "pf", x
+			case int:
+				pname, pwant = "pi", int64(x)
+			case bool:
+				pname, pwant = "pb", x
+			}
+			if it, ok := props[pname]; !ok || it == nil || !reflect.DeepEqual(it.Value(), pwant) {
+				var got any
+				if ok && it != nil {
+					got = it.Value()
+				}
+				v.Violate("property-value", "inputs-"+pname, "%s round %d: T stored hv.u=%#v; the request of N shows property %s=%#v, expected %#v (declared results are visible to later tasks); values stored in earlier rounds: %v", label, round, val, pname, got, pwant, seq[:round])
+				return false
+			}
+			v.Add("property-reads", 1)
 			in.Answer(p[0], bpmn.DoWithResults(nil))
 		}
 		return true
@@ -161,6 +186,138 @@ func c08Inputs(c *c08Case, env *fw.Env, v *fw.V) {
 	}
 	// a second instance of the same definitions value, with hv never a text: literals only
 	runInst("second instance of the same definitions", []int{1, 3})
+}
+
+// c08ObjInput: a data output stored by task A is what the data input of a later task B shows, whatever stands
+// between them (Mid: "task" | "sub" = an embedded sub-process | "none") or elsewhere in the process (Side: a
+// sub-process on a parallel branch), for data objects whose id equals their name and for others; A is answered a
+// second time round a loop (Loop) with another value.
+func c08ObjInput(c *c08Case, env *fw.Env, v *fw.V) {
+	g := gen.NewGraph("c08o")
+	name, id := "order", "order"
+	if c.Names == "id-differs" {
+		id = "DataObject_order"
+	}
+	g.Objects = []gen.DataObject{{ID: id, Name: name, Body: `{"v": 1}`}, {ID: "other", Name: "other", Body: `{"v": -1}`}}
+	s := g.Add(gen.Start, "start", "")
+	a := g.Add(gen.Task, "A", "")
+	a.Outputs = []string{name + "=" + id}
+	b := g.Add(gen.Task, "B", "")
+	b.Inputs = []string{name + "=" + id, "other=other"}
+	b.Writes = []string{"again"}
+	xm := g.Add(gen.Xor, "xm", "")
+	xs := g.Add(gen.Xor, "xs", "")
+	e := g.Add(gen.End, "end", "")
+	g.Connect(s, xm, nil)
+	g.Connect(xm, a, nil)
+	prev := a
+	sub := func(idp string) *gen.Node {
+		sp := g.Add(gen.Sub, idp, "")
+		is := g.Add(gen.Start, idp+"_s", sp.ID)
+		it := g.Add(gen.Task, idp+"_t", sp.ID)
+		ie := g.Add(gen.End, idp+"_e", sp.ID)
+		g.Connect(is, it, nil)
+		g.Connect(it, ie, nil)
+		return sp
+	}
+	switch c.Route {
+	case "task":
+		m := g.Add(gen.Task, "M", "")
+		g.Connect(prev, m, nil)
+		prev = m
+	case "sub":
+		m := sub("M")
+		g.Connect(prev, m, nil)
+		prev = m
+	case "side":
+		// the sub-process is not on the way: it sits on a parallel branch of its own
+		f := g.Add(gen.And, "fk", "")
+		j := g.Add(gen.And, "jn", "")
+		m := sub("M")
+		g.Connect(prev, f, nil)
+		g.Connect(f, m, nil)
+		g.Connect(f, j, nil)
+		g.Connect(m, j, nil)
+		prev = j
+	}
+	g.Connect(prev, b, nil)
+	g.Connect(b, xs, nil)
+	g.Connect(xs, xm, &gen.Cond{Kind: "var", Var: "again", Op: ">", Val: 0})
+	d := g.Connect(xs, e, nil)
+	xs.Default = d.ID
+	defs, _, err := step.Parse(g)
+	if err != nil {
+		v.Inconclusive("parse", "%v", err)
+		return
+	}
+	perturb.Off()
+	in, err := drive.New(env.Label, defs, drive.Opts{Vars: map[string]any{"again": 0}})
+	if err != nil {
+		v.Violate("new-process-error", "object-input", "%v", err)
+		return
+	}
+	defer in.Cancel()
+	if err := in.Start(); err != nil {
+		v.Violate("start-error", "object-input", "%v", err)
+		return
+	}
+	cls := fmt.Sprintf("between=%s-%s", c.Route, c.Names)
+	rounds := 1
+	if c.Loop {
+		rounds = 3
+	}
+	for round := 0; round < rounds; round++ {
+		want := map[string]any{"v": float64(40 + round), "round": fmt.Sprint(round)}
+		for guard := 0; guard < 8; guard++ {
+			q := in.Quiesce(step.Watchdog)
+			if !q.Quiescent {
+				v.Inconclusive("watchdog", "no quiescent point: %v", quiesce.Summary(q.Gs))
+				return
+			}
+			p := in.Pending()
+			if len(p) != 1 {
+				v.Violate("continuation", cls, "round %d: pending %v, expected one request", round, in.PendingActs())
+				return
+			}
+			switch p[0].Act {
+			case "A":
+				in.Answer(p[0], bpmn.DoWithObjects(map[string]any{name: want}))
+				continue
+			case "B":
+				for _, chk := range []struct {
+					n    string
+					want any
+				}{{name, any(want)}, {"other", any(map[string]any{"v": float64(-1)})}} {
+					it, ok := p[0].Trace.GetDataObjects()[chk.n]
+					var got any
+					if ok && it != nil {
+						got = it.Value()
+					}
+					if !reflect.DeepEqual(got, chk.want) {
+						v.Violate("data-input-value", cls, "round %d: task A stored data output %s=%v; the request of the later task B shows data input %s=%v, expected %v", round, name, want, chk.n, got, chk.want)
+						v.Log = in.Tail(30)
+						return
+					}
+				}
+				v.Add("data-input-reads", 2)
+				again := 0
+				if round < rounds-1 {
+					again = 1
+				}
+				in.Answer(p[0], bpmn.DoWithResults(map[string]any{"again": again}))
+			default:
+				in.Answer(p[0], bpmn.DoWithResults(nil))
+				continue
+			}
+			break
+		}
+	}
+	q := in.Quiesce(step.Watchdog)
+	if q.Quiescent {
+		if n := in.Count("CeaseFlow", ""); n != 1 {
+			v.Violate("not-complete", cls, "%d cease-flow traces at the end", n)
+		}
+	}
 }
 
 func c08Cases(tier string, seed uint64) []fw.Case {
@@ -238,10 +395,23 @@ func c08Cases(tier string, seed uint64) []fw.Case {
 			cs = append(cs, fw.MkCase("after-cancel", &c))
 		}
 	}
+	// a stored data output read through the data input of a later task
+	for _, between := range []string{"none", "task", "sub", "side"} {
+		for _, names := range []string{"id-equals-name", "id-differs"} {
+			for _, loop := range []bool{false, true} {
+				c := c08Case{Kind: "object-input", Route: between, Names: names, Loop: loop, Reps: 1}
+				c.Name = fmt.Sprintf("object-input/%s-%s-loop%v", between, names, loop)
+				cs = append(cs, fw.MkCase("object-input", &c))
+			}
+		}
+	}
 	// declared headers / properties of a task requested again and again in a loop
-	for a := 0; a < 7; a++ {
-		for b := 0; b < 7; b++ {
-			c := c08Case{Kind: "inputs", Seq: []int{a, b, (a + b + 1) % 7}, Reps: 1}
+	for a := 0; a < 13; a++ {
+		for b := 0; b < 13; b++ {
+			if a >= 7 && b < 7 && (a+b)%2 == 1 {
+				continue
+			}
+			c := c08Case{Kind: "inputs", Seq: []int{a, b, (a + b + 1) % 13}, Reps: 1}
 			c.Name = fmt.Sprintf("inputs/%d-%d", a, b)
 			cs = append(cs, fw.MkCase("inputs", &c))
 		}
@@ -805,6 +975,8 @@ func init() {
 						c08AfterCancel(&cc, env, v)
 					} else if cc.Kind == "inputs" {
 						c08Inputs(&cc, env, v)
+					} else if cc.Kind == "object-input" {
+						c08ObjInput(&cc, env, v)
 					} else if cc.Kind == "values" {
 						tmp := fw.NewV(fw.Case{})
 						c16Engine(&c16Case{Kind: "engine", Route: cc.Route, From: cc.From, To: cc.To}, env, tmp)
@@ -827,7 +999,7 @@ func init() {
 			v.Nontrivial = true
 			return v
 		},
-		Rule:        "answer histories per request: 1..3 Do calls x sequential / concurrent behind a barrier x payload {results, data objects, both} x names {declared, undeclared, mixed} x hooks off/on (concurrent ones repeated 30/300 times), checked with a porcupine write-once-register model over the Do call/return history and the observed effective marker, plus blocked-caller census, declared-only storage, downstream visibility (gateway branch, next task's properties and data inputs) and late Do; 1..4 answers arriving after the instance's context was cancelled (none may block); a catalogue of ~100 values of every kind (integer widths, floats, strings, booleans, byte slices, nested maps / slices / structs, pointers, nil) answered as declared result and as declared data output, read back in canonical form from the variables and the next task's data inputs; error histories: handler {none, skip, exit, retry n=0..3} x success on attempt 0..4 x extra Do; retry answers whose budget differs from answer to answer (all budget sequences of length 2..3 over 0..3; the k-th failing answer with budget b re-requests only while k-1 < b) x success attempt, followed by a second always-failing task on the same token (requested 1..budget+1 times); all cases non-trivial; distinct = descriptor hash",
+		Rule:        "answer histories per request: 1..3 Do calls x sequential / concurrent behind a barrier x payload {results, data objects, both} x names {declared, undeclared, mixed} x hooks off/on (concurrent ones repeated 30/300 times), checked with a porcupine write-once-register model over the Do call/return history and the observed effective marker, plus blocked-caller census, declared-only storage, downstream visibility (gateway branch, next task's properties and data inputs) and late Do; 1..4 answers arriving after the instance's context was cancelled (none may block); a catalogue of ~100 values of every kind (integer widths, floats, strings, booleans, byte slices, nested maps / slices / structs, pointers, nil) answered as declared result and as declared data output, read back in canonical form from the variables and the next task's data inputs; error histories: handler {none, skip, exit, retry n=0..3} x success on attempt 0..4 x extra Do; retry answers whose budget differs from answer to answer (all budget sequences of length 2..3 over 0..3; the k-th failing answer with budget b re-requests only while k-1 < b) x success attempt, followed by a second always-failing task on the same token (requested 1..budget+1 times); all cases non-trivial; distinct = descriptor hash; inputs scenario with typed properties (text, float, integer, boolean) bound by reference to a stored result; object-input scenario: a stored data output read through the data input of a later task with nothing / a task / a sub-process between them or a sub-process on a parallel branch, id = name and id differing, three rounds in a loop",
 		Exhaustive:  func(string) bool { return true },
 		Assumptions: []string{"each Do carries a unique marker for a declared field so the effective answer identifies the call that won"},
 	})
